@@ -178,7 +178,7 @@ theorem ensureQubitActive_spec (q : Int) (p : Parse.P) (st st' : EState) (a : Un
   refine ⟨rfl, by omega, by omega, ?_⟩
   simpa using h2
 
-theorem simMeasure_spec (q : Int) (st st' : EState) (b : Int) (hr : (simMeasure q).run st = .ok (b, st')) :
+theorem simMeasure_flags_spec (q : Int) (st st' : EState) (b : Int) (hr : (simMeasure q).run st = .ok (b, st')) :
     ∃ r s res, Sim.measure floatOps st.sim q.toNat r = .ok (s, res) ∧ st'.sim = s ∧ st'.qubits = st.qubits := by
   unfold simMeasure nextDraw at hr
   prim_cases hr
@@ -214,7 +214,7 @@ theorem agr_measureQubit (q : Int) (p : Parse.P) : Agr (measureQubit q p) := by
   cases hr
   obtain ⟨e1, hq0, hq1, hnm⟩ := ensureQubitActive_spec q p st st1 _ h1
   subst e1
-  obtain ⟨r, s, res, hm, hs2, hq2⟩ := simMeasure_spec q _ st2 bit h2
+  obtain ⟨r, s, res, hm, hs2, hq2⟩ := simMeasure_flags_spec q _ st2 bit h2
   obtain ⟨hs3, hq3⟩ := markMeasured_spec q st2 st3 _ h3 hq0 (by rw [hq2]; exact hq1)
   obtain ⟨hs4, hq4⟩ := setLastMeasurement_spec q bit st3 st4 _ h4
   obtain ⟨f1, f2, f3⟩ := measure_flags _ _ _ _ _ _ hm
